@@ -47,12 +47,17 @@ class Cross(Prop):
     def nontrivial(self, op, impl):
         return klass(impl) in ("ok", "err", "other")
 
+    def release_judge(self, op, dbg, rel):
+        """the optimized build's answer through the same direct oracle"""
+        return self.bad(op, rel)
+
 
 STACK = re.compile(r"overflowed its stack|stack overflow")
 MEM = re.compile(r"SIGSEGV|SIGBUS|misaligned pointer dereference|unsafe precondition|OUTSIDE\(|!MISALIGNED|MISALIGNED")
 
 
 class C01(Cross):
+    release_check = True        # the optimized build has no UB-check aborts: its answers go through the same oracle and must not differ
     pid = "C01"
     title = "memory safety"
     thm_modules = ["PeliteModel.Thm.C01"]
@@ -67,6 +72,16 @@ class C01(Cross):
             return "memory fault / UB check abort in the implementation: %s" % impl[:400]
         if k != "crash" and ("OUTSIDE(" in impl or "MISALIGNED" in impl):
             return "returned reference outside the buffer or misaligned: %s" % impl[:300]
+        return None
+
+    def release_judge(self, op, dbg, rel):
+        t = self.bad(op, rel)
+        if t:
+            return t
+        # two profiles returning different values / errors (neither panicking) is what undefined
+        # behaviour looks like from outside
+        if klass(dbg) in ("ok", "err", "other") and klass(rel) in ("ok", "err", "other") and dbg != rel:
+            return "checked and optimized builds return different results"
         return None
 
 
